@@ -223,12 +223,72 @@ def _only_fresh_actuals(mod, funcs, helper, pname, depth=0, escaping_ok=True):
             return False
         if not escaping_ok and actual.id in (_escaping_names(caller) - {a.arg for a in caller.args.args}):
             return False          # the caller hands the container on (returns it, stores it in its result)
-        defs = [a for a in ast.walk(caller) if isinstance(a, ast.Assign) and any(isinstance(t, ast.Name) and t.id == actual.id for t in a.targets)]
-        fresh = lambda v: isinstance(v, (ast.Dict, ast.List, ast.Set, ast.Constant, ast.BinOp, ast.ListComp, ast.DictComp)) or \
-            (isinstance(v, ast.Call) and ast.unparse(v.func).split('.')[-1] in ('dict', 'list', 'set', 'zeros', 'zeros_like', 'empty', 'empty_like', 'ones', 'full', 'copy', 'array', 'Dict', 'nbDict', 'nbList', 'List'))
-        if not defs or not all(fresh(a.value) for a in defs):
+        if not _name_is_fresh(funcs, caller, actual.id):
             return False
     return True
+
+
+_FRESH_CALLS = ('dict', 'list', 'set', 'zeros', 'zeros_like', 'empty', 'empty_like', 'ones', 'ones_like', 'full', 'full_like', 'copy', 'array', 'Dict', 'nbDict', 'nbList', 'List')
+_CACHE_DECORATORS = ('lru_cache', 'cache', 'cached', 'memoize', 'memoized', 'cached_property')
+
+
+def _fresh_expr(funcs, scope, v, depth=0, pos=None):
+    """v evaluates to an object nobody else holds: a literal, a constructor / numpy creation call, the result of arithmetic, a local name bound only to such values,
+    or a call of a function of this module all of whose returns are such values and which is not memoised (a cached allocator hands the same object out twice)."""
+    if depth > 4:
+        return False
+    if pos is not None:
+        if isinstance(v, ast.Tuple) and pos < len(v.elts):
+            return _fresh_expr(funcs, scope, v.elts[pos], depth)
+        if isinstance(v, ast.Call) and isinstance(v.func, ast.Name):
+            callee = next((f_ for f_ in funcs if f_.name == v.func.id), None)
+            return callee is not None and _returns_fresh(funcs, callee, depth + 1, pos)
+        if isinstance(v, ast.Name):
+            return False
+        return False
+    if isinstance(v, (ast.Dict, ast.List, ast.Set, ast.Constant, ast.BinOp, ast.ListComp, ast.DictComp, ast.UnaryOp)):
+        return True
+    if isinstance(v, ast.Call):
+        nm = ast.unparse(v.func).split('.')[-1]
+        if nm in _FRESH_CALLS:
+            return True
+        if isinstance(v.func, ast.Name):
+            callee = next((f_ for f_ in funcs if f_.name == v.func.id), None)
+            return callee is not None and _returns_fresh(funcs, callee, depth + 1)
+        return False
+    if isinstance(v, ast.Name):
+        return _name_is_fresh(funcs, scope, v.id, depth + 1)
+    return False
+
+
+def _name_is_fresh(funcs, scope, name, depth=0):
+    if name in [a.arg for a in scope.args.args + scope.args.kwonlyargs]:
+        return False
+    found = False
+    for a in ast.walk(scope):
+        if not isinstance(a, ast.Assign):
+            continue
+        for t in a.targets:
+            if isinstance(t, ast.Name) and t.id == name:
+                found = True
+                if not _fresh_expr(funcs, scope, a.value, depth):
+                    return False
+            elif isinstance(t, ast.Tuple):
+                for i_, el in enumerate(t.elts):
+                    if isinstance(el, ast.Name) and el.id == name:
+                        found = True
+                        if not _fresh_expr(funcs, scope, a.value, depth, pos=i_):
+                            return False
+    return found
+
+
+def _returns_fresh(funcs, fdef, depth=0, pos=None):
+    for d_ in fdef.decorator_list:
+        dn = ast.unparse(d_.func if isinstance(d_, ast.Call) else d_).split('.')[-1]
+        if dn in _CACHE_DECORATORS:
+            return False
+    rets = [r for r in ast.walk(fdef) if isinstance(r, ast.Return) and r.value is not None]
+    return bool(rets) and all(_fresh_expr(funcs, fdef, r.value, depth, pos) for r in rets)
 
 
 def inplace_lint(chk, repo, rule, paths, floor_funcs=1):
@@ -498,6 +558,8 @@ class ArrayTwin:
             return v
 
         def same(a, b, path='value'):
+            if a is b and (isinstance(a, (dict, list, ArrBox)) or type(a).__name__ == 'Arr') and len(a if not isinstance(a, ArrBox) and type(a).__name__ != 'Arr' else [0]) > 0:
+                return f'{path}: two separate calls return one and the same mutable object (a result kept between calls: the earlier result changes when the later one is written)'
             a = a.v if isinstance(a, ArrBox) else a; b = b.v if isinstance(b, ArrBox) else b
             if isinstance(a, (tuple, list)) and isinstance(b, (tuple, list)):
                 if len(a) != len(b): return f'{path}: {len(b)} elements instead of {len(a)}'
